@@ -33,6 +33,9 @@ type Prog struct {
 
 	globalNN map[*ssa.Global]bool
 
+	// parameter names at the time the rule tables were written: function key -> names by position
+	Names map[string][]string
+
 	// thorough tier: VTA call graph over the whole program (dynamic call sites resolved by value flow)
 	Dyn map[ssa.CallInstruction][]*ssa.Function
 }
